@@ -123,6 +123,26 @@ def chain_family():
                 out.append(({"id": f"C09-range-{t}-{li}", "files": files, "main": "main.idl", "incdirs": []},
                             {"rule": "const-range", "type": t, "value": lit, "where": "main" if place != "included-base" else "included",
                              "scope": place, "in_main_chain": True, "family": "range"}))
+    # out-of-range hexadecimal literals that contain every two-character pattern `0d` (d any hex
+    # digit, either case): no part of the digit string may be taken for a prefix or a separator
+    k_ = 0
+    for t, nhex, neg in (("uint8", 2, False), ("uint16", 4, False), ("uint32", 8, False), ("int8", 2, True), ("int16", 4, True)):
+        for dch in "0123456789abcdefABCDEF":
+            digits = "1" + "0" + dch + "7" * max(0, nhex - 2)
+            lit = ("-0x" if neg else "0x") + digits
+            k_ += 1
+            place = ("file", "interface", "included-base")[k_ % 3]
+            const = {"k": "const", "type": t, "name": "ZHEX", "value": lit}
+            if place == "file":
+                files = [{"path": "main.idl", "nodes": [const, {"k": "interface", "name": "IK", "base": None, "members": []}]}]
+            elif place == "interface":
+                files = [{"path": "main.idl", "nodes": [{"k": "interface", "name": "IK", "base": None, "members": [const]}]}]
+            else:
+                files = [{"path": "main.idl", "nodes": [{"k": "include", "path": "lim.idl"}, {"k": "interface", "name": "IK", "base": "ILim", "members": []}]},
+                         {"path": "lim.idl", "nodes": [{"k": "interface", "name": "ILim", "base": None, "members": [const]}]}]
+            out.append(({"id": f"C09-hexpat-{t}-{dch}", "files": files, "main": "main.idl", "incdirs": []},
+                        {"rule": "const-range", "type": t, "value": lit, "where": "main" if place != "included-base" else "included",
+                         "scope": place, "in_main_chain": True, "family": "range"}))
     # duplicates across levels: a method / error of the leaf repeats a name of the root
     for kind in ("dup-method", "dup-const-error"):
         lv = [{"k": "interface", "name": nm_, "base": b_, "members": []} for nm_, b_ in (("IRoot", None), ("IMid", "IRoot"), ("ILeaf", "IMid"))]
